@@ -372,6 +372,8 @@ func (s *Sim) Step(t *rapid.T) {
 	_ = weights
 	act := rapid.IntRange(0, 25).Draw(t, "act")
 	switch {
+	case act >= 24 && len(s.Byz) > 0 && !s.byzHasTwoThirds() && len(up) >= 2: // scripted lock-split attack on agreement
+		s.SplitAttack(t, up)
 	case act >= 23 && s.byzHasTwoThirds(): // single-victim profile: scripted lock / round change / (un)lock sequence
 		s.LockDance(t, up)
 	case act >= 20: // scripted round with drawn visibility sets (makes lock / split states frequent)
@@ -984,4 +986,190 @@ func (s *Sim) LockDance(t *rapid.T, up []int) {
 	}
 	s.Stat["lock-dance"]++
 	s.tracef("lockdance end at %d/%d/%v", cs.Height, cs.Round, cs.Step)
+}
+
+func (s *Sim) powerOf(idx []int) int64 {
+	var p int64
+	for _, i := range idx {
+		p += s.Powers[i]
+	}
+	return p
+}
+
+// byzVoteTo: every Byzantine validator casts (typ, round, id) to each node in targets (at that node's height).
+func (s *Sim) byzVoteTo(targets []int, typ kproto.SignedMsgType, round uint32, id types.BlockID, h uint64) {
+	for _, i := range targets {
+		nd := s.Nodes[i]
+		if s.down(i) || nd.CS.Height != h {
+			continue
+		}
+		for _, b := range s.Byz {
+			if v := s.SignVote(b, nd, typ, h, round, id); v != nil {
+				s.send(i, b, &consensus.VoteMessage{Vote: v})
+			}
+		}
+		s.DrainOwn(i)
+	}
+}
+
+// SplitAttack scripts the classic attack on agreement with < 1/3 Byzantine power: get a set S1 of correct nodes to
+// lock on X, let ONE node A see +2/3 precommits for X (Byzantine precommits shown to A only) so that it commits, keep
+// everybody else in the dark so that they move to the next round, then push another block Y there with Byzantine
+// prevotes and precommits. With correct locking rules Y can never get its +2/3; any weakening of the lock/unlock rules
+// or of the quorum lets the others commit Y.
+func (s *Sim) SplitAttack(t *rapid.T, up []int) {
+	h := s.MinHeight(up)
+	var at []int
+	for _, i := range up {
+		if s.Nodes[i].CS.Height == h {
+			at = append(at, i)
+		}
+	}
+	if len(at) < 2 {
+		return
+	}
+	s.tracef("splitattack begin h=%d nodes=%v", h, at)
+	s.fireIfStep(at, "RoundStepNewHeight", "RoundStepNewRound")
+	// everybody must be in the same round for the script to make sense
+	r := s.Nodes[at[0]].CS.Round
+	for _, i := range at {
+		if s.Nodes[i].CS.Round != r || s.Nodes[i].CS.Height != h {
+			s.tracef("splitattack: nodes not aligned")
+			return
+		}
+	}
+	// 1. proposal X to everybody
+	s.relayKind("proposal", at, at)
+	ref := s.Nodes[at[0]].CS
+	if prop := ref.Validators.GetProposer(); prop != nil {
+		if b := s.genesisIndexOf(prop.Address); b >= 0 && s.Nodes[b] == nil {
+			c := s.MakeCand(at[0], b, 0, "")
+			if c != nil {
+				p := s.SignProposal(b, h, r, 0, c.ID)
+				for _, j := range at {
+					s.send(j, b, &consensus.ProposalMessage{Proposal: p})
+					for k := 0; k < int(c.Parts.Total()); k++ {
+						s.send(j, b, &consensus.BlockPartMessage{Height: h, Round: r, Part: c.Parts.GetPart(k)})
+					}
+					s.DrainOwn(j)
+				}
+			}
+		}
+	}
+	s.fireIfStep(at, "RoundStepPropose")
+	var X types.BlockID
+	for _, i := range at {
+		cs := s.Nodes[i].CS
+		if cs.ProposalBlock != nil && cs.ProposalBlockParts != nil && cs.ProposalBlockParts.IsComplete() {
+			X = types.BlockID{Hash: cs.ProposalBlock.Hash(), PartsHeader: cs.ProposalBlockParts.Header()}
+		}
+	}
+	if X.IsZero() {
+		s.tracef("splitattack: no proposal")
+		return
+	}
+	// 2. S1 (drawn, contains A) sees the polka for X, the rest does not
+	A := rapid.SampledFrom(at).Draw(t, "saA")
+	S1 := []int{A}
+	for _, i := range at {
+		if i != A && rapid.Bool().Draw(t, "saS1") {
+			S1 = append(S1, i)
+		}
+	}
+	var rest []int
+	for _, i := range at {
+		in := false
+		for _, j := range S1 {
+			if i == j {
+				in = true
+			}
+		}
+		if !in {
+			rest = append(rest, i)
+		}
+	}
+	s.tracef(" X held; A=n%d S1=%v rest=%v", A, S1, rest)
+	s.byzVoteTo(S1, kproto.PrevoteType, r, X, h)
+	s.relayKind("prevotes", S1, at)
+	// the rest sees only some prevotes, then times out and precommits nil
+	for _, i := range rest {
+		j := rapid.SampledFrom(at).Draw(t, "sapv")
+		s.relayKind("prevotes", []int{i}, []int{j})
+	}
+	s.byzVoteTo(rest, kproto.PrevoteType, r, types.BlockID{}, h)
+	s.fireIfStep(rest, "RoundStepPrevoteWait", "RoundStepPropose")
+	s.fireIfStep(S1, "RoundStepPrevoteWait")
+	// 3. only A sees the precommits for X (S1's and the Byzantine ones)
+	s.byzVoteTo([]int{A}, kproto.PrecommitType, r, X, h)
+	s.relayKind("precommits", []int{A}, at)
+	// 4. everybody else exchanges precommits without the Byzantine ones for X and moves on
+	var others []int
+	for _, i := range at {
+		if i != A {
+			others = append(others, i)
+		}
+	}
+	s.byzVoteTo(others, kproto.PrecommitType, r, types.BlockID{}, h)
+	s.relayKind("precommits", others, others)
+	s.fireIfStep(others, "RoundStepPrecommitWait")
+	// 5. next round among the others: push another block Y
+	var live []int
+	for _, i := range others {
+		if s.Nodes[i].CS.Height == h {
+			live = append(live, i)
+		}
+	}
+	if len(live) == 0 {
+		s.tracef("splitattack end (everybody committed)")
+		return
+	}
+	for round := 0; round < 2; round++ {
+		s.fireIfStep(live, "RoundStepNewRound")
+		s.relayKind("proposal", live, live)
+		r2 := s.Nodes[live[0]].CS.Round
+		var Y *Cand
+		if prop := s.Nodes[live[0]].CS.Validators.GetProposer(); prop != nil {
+			if b := s.genesisIndexOf(prop.Address); b >= 0 && s.Nodes[b] == nil {
+				Y = s.MakeCand(live[0], (b+1)%len(s.Keys), 0, "")
+				if Y != nil && ExactKey(Y.ID) != ExactKey(X) {
+					p := s.SignProposal(b, h, r2, 0, Y.ID)
+					for _, j := range live {
+						s.send(j, b, &consensus.ProposalMessage{Proposal: p})
+						for k := 0; k < int(Y.Parts.Total()); k++ {
+							s.send(j, b, &consensus.BlockPartMessage{Height: h, Round: r2, Part: Y.Parts.GetPart(k)})
+						}
+						s.DrainOwn(j)
+					}
+				}
+			}
+		}
+		s.fireIfStep(live, "RoundStepPropose")
+		// whatever non-X block the live nodes now hold is pushed by the Byzantine validators
+		var Yid types.BlockID
+		for _, i := range live {
+			cs := s.Nodes[i].CS
+			if cs.Height == h && cs.ProposalBlock != nil && cs.ProposalBlockParts != nil && cs.ProposalBlockParts.IsComplete() && !cs.ProposalBlock.HashesTo(X.Hash) {
+				Yid = types.BlockID{Hash: cs.ProposalBlock.Hash(), PartsHeader: cs.ProposalBlockParts.Header()}
+			}
+		}
+		s.tracef(" round %d: pushing other block=%v", r2, !Yid.IsZero())
+		s.byzVoteTo(live, kproto.PrevoteType, r2, Yid, h)
+		s.relayKind("prevotes", live, live)
+		s.fireIfStep(live, "RoundStepPrevoteWait")
+		s.byzVoteTo(live, kproto.PrecommitType, r2, Yid, h)
+		s.relayKind("precommits", live, live)
+		s.fireIfStep(live, "RoundStepPrecommitWait")
+		var still []int
+		for _, i := range live {
+			if s.Nodes[i].CS.Height == h {
+				still = append(still, i)
+			}
+		}
+		live = still
+		if len(live) == 0 {
+			break
+		}
+	}
+	s.Stat["split-attack"]++
+	s.tracef("splitattack end")
 }
